@@ -251,6 +251,37 @@ def _limit_child():
 
 
 def run_impl(layer, lines, mode, args=(), env_extra=None, timeout=None):
+    """run operation lines against the real implementation; large batches are cut at script boundaries (`reset…` lines)
+    into chunks executed by concurrent executor processes (every script starts from a reset, so the outputs are those
+    of one sequential run)"""
+    jobs = int(os.environ.get("VERIF_IMPL_JOBS", "6"))
+    starts = [i for i, l in enumerate(lines) if l.startswith("reset")] if len(lines) >= 20000 and jobs > 1 else []
+    if len(starts) >= 4 * jobs and starts[0] == 0:
+        cuts = [0]
+        for k in range(1, jobs):
+            target = k * len(lines) // jobs
+            c = min((i for i in starts if i >= target), default=None)
+            if c is not None and c > cuts[-1]:
+                cuts.append(c)
+        cuts.append(len(lines))
+        from concurrent.futures import ThreadPoolExecutor
+        build_overlay()
+
+        def one(k):
+            try:
+                return _run_impl_one(layer, lines[cuts[k]:cuts[k + 1]], mode, args, env_extra, timeout)
+            except ImplBroken as e:
+                return e
+        with ThreadPoolExecutor(max_workers=len(cuts) - 1) as ex:
+            parts = list(ex.map(one, range(len(cuts) - 1)))
+        for p_ in parts:
+            if isinstance(p_, ImplBroken):
+                raise p_
+        return [o for p_ in parts for o in p_]
+    return _run_impl_one(layer, lines, mode, args, env_extra, timeout)
+
+
+def _run_impl_one(layer, lines, mode, args=(), env_extra=None, timeout=None):
     """run operation lines against the real implementation (overlay) in a subprocess.
     mode: 'c' (accelerator) or 'py' (PURE_PYTHON=1). Returns output lines."""
     ov = build_overlay()
